@@ -135,6 +135,7 @@ def _alarm(signum, frame):
     raise WallTimeout()
 
 
+NONTERM_CONFIRMED = [0]   # confirmed non-terminating calls in this process
 SLOW_CONFIRMED = [0]      # calls that exceeded the line budget under load but completed in the confirmation run
 
 
@@ -148,6 +149,8 @@ def call_guarded(fn, wall_s=2.0, step_budget=3_000_000):
     r = _call_guarded(fn, wall_s, step_budget)
     if r[0] != "nonterm":
         return r
+    if NONTERM_CONFIRMED[0] >= 3:
+        return r        # non-termination is established in this process: later cases are judged by the line budget alone
     old = signal.signal(signal.SIGALRM, _alarm)
     signal.setitimer(signal.ITIMER_REAL, max(30.0, wall_s * 15))
     try:
@@ -156,6 +159,7 @@ def call_guarded(fn, wall_s=2.0, step_budget=3_000_000):
             SLOW_CONFIRMED[0] += 1
             return ("ok", v)
         except WallTimeout:
+            NONTERM_CONFIRMED[0] += 1
             return r
         except Exception as e:
             SLOW_CONFIRMED[0] += 1
